@@ -100,7 +100,7 @@ class BuildTsXy(Contract):
         past, delay2 = z(m["past"]), z(m["delay2"])
         n = z(a_y.shape[0])
         nrow = n - delay2 - past + 2
-        ncol = z(L["ncol"])
+        ncol = z(L["X"].shape[1]) if L["X"] is not None else z3.IntVal(0)      # from the parameter, not from a local temporary of the code
         same = L["same_rows"]
         off = (n - nrow) if same else z3.IntVal(0)
         pre = L.old("new_X")
